@@ -43,7 +43,11 @@ void softHSMLog(const int, const char*, const char*, const int, const char*, ...
 	X(SENSITIVE) X(EXTRACTABLE) X(ALWAYS_AUTHENTICATE) X(WRAP_WITH_TRUSTED) X(TRUSTED) X(MODIFIABLE) X(COPYABLE) \
 	X(DESTROYABLE) X(LOCAL) X(ALWAYS_SENSITIVE) X(NEVER_EXTRACTABLE)
 #define SYM_ULONGS(X) X(CLASS) X(KEY_TYPE) X(VALUE_LEN) X(CERTIFICATE_TYPE) X(KEY_GEN_MECHANISM)
+#ifdef SYMOBJ_RSA
+#define SYM_BYTES(X) X(VALUE) X(LABEL) X(PRIVATE_EXPONENT) X(PRIME_1) X(PRIME_2) X(EXPONENT_1) X(EXPONENT_2) X(COEFFICIENT)
+#else
 #define SYM_BYTES(X) X(VALUE) X(LABEL) X(ID) X(CHECK_VALUE)
+#endif
 enum { SK_BOOL = 0, SK_ULONG = 1, SK_BYTES = 2, SK_MECHSET = 3, SK_OTHER = 4 };
 struct SetRecord { CK_ATTRIBUTE_TYPE type; unsigned char kind; bool b; unsigned long u; size_t bsLen; unsigned char bs0; };
 
@@ -219,6 +223,12 @@ OSObject* sink_token_createObject(Token*) { store_log.tokCreates++; return store
 OSObject* sink_sos_createObject(SessionObjectStore*, CK_SLOT_ID slot, CK_SESSION_HANDLE hs, bool priv) { store_log.sessCreates++; store_log.lastSessPriv = priv; store_log.lastSessHandle = hs; store_log.lastSlot = slot; return store_log.createFails ? (OSObject*)0 : &env_newobj; }
 bool sink_token_decrypt(Token*, const ByteString& in, ByteString& out) { store_log.decrypts++; model_fill(out, nondet_ulong() % (MODEL_OUT_MAX + 1)); return nondet_bool(); }
 bool sink_token_encrypt(Token*, const ByteString& in, ByteString& out) { store_log.encrypts++; model_fill(out, nondet_ulong() % (MODEL_OUT_MAX + 1)); return nondet_bool(); }
+}
+// tagging model of Token::encrypt / decrypt (only "was it encrypted?" matters): encrypt(x) = TAG || x
+enum { ENC_TAG = 0xEE };
+extern "C" {
+bool tag_token_encrypt(Token*, const ByteString& in, ByteString& out) { store_log.encrypts++; if (nondet_bool()) return false; out.resize(in.size() + 1); out[0] = ENC_TAG; for (size_t i = 0; i < in.size(); i++) out[i + 1] = in.const_byte_str()[i]; return true; }
+bool tag_token_decrypt(Token*, const ByteString& in, ByteString& out) { store_log.decrypts++; if (nondet_bool() || in.size() == 0 || in.const_byte_str()[0] != ENC_TAG) return false; out.resize(in.size() - 1); for (size_t i = 1; i < in.size(); i++) out[i - 1] = in.const_byte_str()[i]; return true; }
 }
 static inline bool env_user_logged_in() { return env.sdm->userLoggedIn && !env.sdm->soLoggedIn; }
 static inline bool in_supported(CK_MECHANISM_TYPE m) { for (size_t i = 0; i < env.hsm->supportedMechanisms.n_; i++) if (env.hsm->supportedMechanisms.s_[i] == m) return true; return false; }
